@@ -52,78 +52,136 @@ def run(ctx, anchors=None):
     rs = [f for f in fb.fns("UnserializeTransaction")]
     if not ws or not rs:
         raise AnalysisBroken("transaction codec functions not found")
-    sp = lambda n: n.get("k") == "ref" and n["n"] == "s" and n.get("dk") == "parm"
     w, r = ws[0], rs[0]
-
     from . import common as _cm
-    _cm.require_names(w, ["s", "tx", "flags"], "R13.1")
-    _cm.require_names(r, ["s", "tx", "flags"], "R13.1")
-    wp = streams.paths(w, w.body, sp)
-    rp = streams.paths(r, r.body, sp)
-    ctx.site(len(wp) + len(rp))
-    sel = {
-        "writer.extended": pick(wp, ["fAllowWitness", "tx.HasWitness()", "flags", "(flags & 1)"]),
-        "writer.basic": pick(wp, ["!flags", "!(flags & 1)"]),
-        "reader.extended": pick(rp, ["((tx.vin.size() == 0) && fAllowWitness)", "(flags != 0)", "((flags & 1) && fAllowWitness)"]),
-        "reader.basic": pick(rp, ["!((tx.vin.size() == 0) && fAllowWitness)", "!((flags & 1) && fAllowWitness)"]),
-    }
-    for k, v in sel.items():
-        if not v:
-            raise AnalysisBroken("R13.1: path '%s' could not be selected (guards of the codec changed)" % k)
-    spec = {
-        "basic": [">> tx.nVersion", ">> tx.vin", ">> tx.vout", ">> tx.nLockTime"],
-        "extended": [">> tx.nVersion", ">> tx.vin", ">> flags", ">> tx.vin", ">> tx.vout", "loop[(i < tx.vin.size())]{>> tx.vin[i].scriptWitness.stack}", ">> tx.nLockTime"],
-    }
-    for fmt in ("basic", "extended"):
-        wseqs = {tuple(seq_text(ev)) for (ev, gd) in sel["writer." + fmt]}
-        rseqs = {tuple(seq_text(ev)) for (ev, gd) in sel["reader." + fmt]}
-        wseq = sorted(wseqs)[0]
-        rseq = sorted(rseqs)[0]
-        ctx.inst(len(wseqs) == 1 and len(rseqs) == 1 and mirror(list(wseq)) == list(rseq), "R13.1", "mirror:" + fmt, w.loc(),
-                 "%s format: reader sequence is the mirror of the writer sequence (%d fields)" % (fmt, len(rseq)),
-                 "%s format: the writer streams %s but the reader reads %s" % (fmt, list(wseq), list(rseq)))
-        ctx.inst(list(rseq) == spec[fmt], "R13.1", "format:" + fmt, r.loc(), "%s format field order is version,[dummy,flags],vin,vout,[witness],locktime" % fmt,
-                 "%s format is read as %s; the transaction format is %s" % (fmt, list(rseq), spec[fmt]))
-    # rejections
-    throws = [n for n in r.nodes() if n["k"] == "throw"]
-    sup = unk = None
-    for t in throws:
-        g = [("" if tt else "!") + astq.estr(c) for (c, tt) in S.ast_guards(r, t)]
-        msg = " ".join(x["s"] for x in walk(t) if x["k"] == "str")
-        if "Superfluous" in msg:
-            sup = (t, g)
-        if "Unknown" in msg:
-            unk = (t, g)
-    ok_sup = False
-    why = "no 'superfluous witness' rejection"
-    if sup:
-        t, g = sup
-        inner = g[0] if g else ""
-        in_wit = any("(flags & 1)" in x and not x.startswith("!") for x in g)
-        if inner == "!tx.HasWitness()" and in_wit:
-            ok_sup = True
-        else:
-            # a local accumulator: must be monotone
-            cond = [c for (c, tt) in S.ast_guards(r, t)][0]
-            a, neg = S.strip_not(cond)
-            if a is not None and a.get("k") == "ref" and a.get("dk") == "local" and neg and in_wit:
-                asg = [n for n in r.nodes() if (n["k"] in ("assign", "cassign")) and n["lhs"].get("k") == "ref" and n["lhs"].get("d") == a["d"]]
-                mono = all((n["k"] == "cassign" and n["op"] == "|=") or (n["k"] == "assign" and (astq.const_value(n["rhs"]) == 1 or (n["rhs"].get("k") == "bin" and n["rhs"]["op"] == "||" and astq.estr(n["rhs"]["lhs"]) == a["n"]))) for n in asg)
-                ok_sup = bool(asg) and mono
-                why = "the local `%s` deciding 'superfluous witness' is overwritten per input (not accumulated): only the last input counts" % a["n"]
+    # R13.1 on terms (G-SYM): the stream both functions build, per path, as an item list over locations of the transaction
+    from .. import symx
+    from .c02_digests import flatten, show_item, first_diff
+    need = {"CMutableTransaction": ["nVersion", "vin", "vout", "nLockTime"], "CTxIn": ["scriptWitness"], "CScriptWitness": ["stack"]}
+    for rec, names in need.items():
+        have = set(fb.record_fields(rec))
+        if [x for x in names if x not in have]:
+            raise AnalysisBroken("R13.1: anchor name(s) %s not found in %s - renamed or restructured" % ([x for x in names if x not in have], rec))
+    X = symx.Explorer(prog, inline=lambda fn, n: False, transparent=lambda n: True)
+    TX, ST = ("a", "tx"), ("a", "s")
+
+    def chains(func):
+        if len(func.params) != 2:
+            raise AnalysisBroken("R13.1: %s takes %d parameters" % (func.name, len(func.params)))
+        try:
+            outs = X.explore(func, params={func.params[0]["n"]: TX, func.params[1]["n"]: ST})
+        except symx.Unsupported as e:
+            raise AnalysisBroken("R13.1: %s: %s" % (func.name, e))
+        res = []
+        for o in outs:
+            items, base = flatten(X.var(o, func.params[1]["n"]))
+            if base != ST:
+                raise AnalysisBroken("R13.1: %s streams into %s" % (func.name, symx.show(base)))
+            res.append((o, items))
+        return res
+
+    def fld(*names):
+        t = TX
+        for n_ in names:
+            t = ("f", t, n_)
+        return t
+    VIN, VOUT = fld("vin"), fld("vout")
+    wit_loop = ("loop", VIN, [("op", "OP", ("f", ("f", ("elem", VIN), "scriptWitness"), "stack"))])
+
+    def shape(items, op):
+        """items without their C++ types: [(op, location)] / loops"""
+        out = []
+        for it_ in items:
+            if it_[0] == "loop":
+                out.append(("loop", it_[1], shape(it_[2], op)))
             else:
-                why = "the 'superfluous witness' rejection is guarded by `%s`" % inner
-    ctx.inst(ok_sup, "R13.1", "reject-superfluous-witness", r.loc(sup[0]) if sup else r.loc(),
-             "witness flag with all-empty witness stacks is rejected, using the writer's predicate (any input has a witness)", why)
-    ok_unk = False
-    if unk:
-        t, g = unk
-        xors = [n for n in r.nodes() if n["k"] == "cassign" and n["op"] == "^=" and astq.estr(n["lhs"]) == "flags" and astq.const_value(n["rhs"]) == 1]
-        ok_unk = g and g[0] == "flags" and len(xors) == 1
-    ctx.inst(ok_unk, "R13.1", "reject-unknown-flags", r.loc(unk[0]) if unk else r.loc(), "flag bits other than bit 0 are rejected after bit 0 was cleared")
-    wflags = [n for n in w.nodes() if n["k"] in ("assign", "cassign") and astq.estr(n["lhs"]) == "flags"]
-    ctx.inst(all(n["k"] == "cassign" and n["op"] == "|=" and astq.const_value(n["rhs"]) == 1 for n in wflags) and len(wflags) == 1, "R13.1", "writer-sets-only-bit0", w.loc(),
-             "the writer sets only flag bit 0, under fAllowWitness && HasWitness()")
+                out.append((it_[1], it_[2]))
+        return out
+
+    def spec(fmt, op, flags_term, dummy):
+        base = [(op, fld("nVersion"))]
+        if fmt in ("extended", "empty"):
+            base += [(op, dummy), (op, flags_term)]
+        if fmt != "empty":
+            base += [(op, VIN), (op, VOUT)]
+        if fmt == "extended":
+            base.append(("loop", VIN, [(op, ("f", ("f", ("elem", VIN), "scriptWitness"), "stack"))]))
+        base.append((op, fld("nLockTime")))
+        return base
+    wch, rch = chains(w), chains(r)
+    ctx.site(len(wch) + len(rch))
+    FLAGV = ("var", "unsigned char")
+    r_ok = {}
+    for (o, items) in rch:
+        if o.status in ("end", "ret"):
+            r_ok.setdefault(tuple(map(repr, shape(items, ">>"))), (o, items))
+    w_ok = {}
+    for (o, items) in wch:
+        if o.status in ("end", "ret"):
+            w_ok.setdefault(tuple(map(repr, shape(items, "<<"))), (o, items))
+    rspec = {fmt: spec(fmt, ">>", FLAGV, VIN) for fmt in ("basic", "extended", "empty")}
+    wspec = {fmt: spec(fmt, "<<", symx.C(1), ("ap", "new:std::vector")) for fmt in ("basic", "extended")}
+    r_by = {fmt: [v for k_, v in r_ok.items() if k_ == tuple(map(repr, rspec[fmt]))] for fmt in rspec}
+    w_by = {fmt: [v for k_, v in w_ok.items() if k_ == tuple(map(repr, wspec[fmt]))] for fmt in wspec}
+    r_other = [v for k_, v in r_ok.items() if k_ not in {tuple(map(repr, x)) for x in rspec.values()}]
+    w_other = [v for k_, v in w_ok.items() if k_ not in {tuple(map(repr, x)) for x in wspec.values()}]
+    for fmt in ("basic", "extended"):
+        got_r = r_by[fmt]
+        got_w = w_by[fmt]
+        bad_r = [[show_item(i) for i in it_] for (o, it_) in r_other]
+        bad_w = [[show_item(i) for i in it_] for (o, it_) in w_other]
+        ctx.inst(bool(got_r) and not r_other, "R13.1", "format:" + fmt, r.loc(), "%s format field order is version,[dummy,flags],vin,vout,[witness],locktime" % fmt,
+                 "%s format: the reader accepts %s; the transaction format is %s" % (fmt, bad_r[:1] or "no such path", [show_item(("op",) + x) if x[0] != "loop" else "loop" for x in rspec[fmt]]))
+        # mirror: same item kinds and C++ types position by position
+        ok_m = bool(got_r) and bool(got_w) and not w_other
+        if ok_m:
+            ri, wi = got_r[0][1], got_w[0][1]
+            def types(items):
+                return [(i[0], i[-1] if i[0] == "op" else tuple(types(i[2]))) for i in items]
+            ok_m = types(ri) == types(wi)
+        ctx.inst(ok_m, "R13.1", "mirror:" + fmt, w.loc(), "%s format: the reader reads, with the same types, exactly what the writer writes" % fmt,
+                 "%s format: the writer streams %s but the reader reads %s" % (fmt, bad_w[:1] or [[show_item(i) for i in v[1]] for v in got_w][:1], bad_r[:1] or [[show_item(i) for i in v[1]] for v in got_r][:1]))
+    # rejections, read off the decided conditions
+    HASW = ("ap", "m:HasWitness", TX)
+    ext_ok = [o for (o, it_) in rch if o.status in ("end", "ret") and any(x[0] == "loop" for x in it_)]
+    ext_thr = [o for (o, it_) in rch if o.status == "throw" and any(x[0] == "loop" for x in it_)]
+
+    def decided(o, term):
+        for (t, v) in o.conds:
+            if t == term:
+                return v
+        return None
+    acc = [t for o in ext_thr for (t, v) in o.conds if isinstance(t, tuple) and t[0] == "ap" and t[1] == "loopvar"]
+    ok_sup = bool(ext_ok) and all(decided(o, HASW) is True for o in ext_ok) and any(decided(o, HASW) is False for o in ext_thr)
+    why = "the extended format is accepted although no input carries a witness (the writer would have chosen the basic format): 'superfluous witness' is not rejected with the writer's predicate HasWitness()"
+    if not ok_sup and acc:
+        # a local accumulated over the inputs: its per-iteration term must refer to its previous value (|=, x = x || ...)
+        mono = all(any(isinstance(x, tuple) and x and x[0] == "prev" for x in symx.subterms(t[3])) for t in acc)
+        decided_acc = bool(ext_ok) and all(any(t in acc and v for (t, v) in o.conds) for o in ext_ok)
+        ok_sup = mono and decided_acc
+        if not mono:
+            why = "the local deciding 'superfluous witness' is overwritten per input (not accumulated): only the last input counts"
+    ctx.inst(ok_sup, "R13.1", "reject-superfluous-witness", r.loc(), "witness flag with all-empty witness stacks is rejected, using the writer's predicate (any input has a witness)", why)
+    # unknown flag bits: every accepted path that read the flags byte has (flags ^ 1 on the witness path, flags otherwise) == 0
+    flag_paths = [(o, it_) for (o, it_) in rch if o.status in ("end", "ret") and any(x[0] == "op" and x[2] == FLAGV for x in it_)]
+    ok_unk = bool(flag_paths)
+    for (o, it_) in flag_paths:
+        reads = [t for (t, v) in o.conds if isinstance(t, tuple) and t[0] == "ap" and t[1] == "read"]
+        rd = reads[0] if reads else None
+        if any(x[0] == "loop" for x in it_):
+            if decided(o, ("ap", "^", rd, symx.C(1))) is not False:
+                ok_unk = False
+        elif rd is None or decided(o, rd) is not False:
+            ok_unk = False
+    ctx.inst(ok_unk, "R13.1", "reject-unknown-flags", r.loc(), "flag bits other than bit 0 are rejected after bit 0 was cleared",
+             "an accepted path leaves flag bits other than the witness bit unchecked")
+    wf = set()
+    for (o, it_) in wch:
+        for x in it_:
+            if x[0] == "op" and x[-1] == ("s", "unsigned char"):
+                wf.add(x[2])
+    ctx.inst(wf == {symx.C(1)} and all(decided(o, HASW) is True for (o, it_) in w_by["extended"]) and bool(w_by["extended"]), "R13.1", "writer-sets-only-bit0", w.loc(),
+             "the writer sets only flag bit 0, under fAllowWitness && HasWitness()", "the writer emits the flag byte(s) %s / not under HasWitness()" % sorted(symx.show(x) for x in wf))
     # ---- R13.2
     NOWIT = fb.var("SERIALIZE_TRANSACTION_NO_WITNESS").get("value")
     for name, want in (("CTransaction::ComputeHash", NOWIT), ("CMutableTransaction::GetHash", NOWIT), ("CTransaction::ComputeWitnessHash", 0)):
